@@ -80,6 +80,16 @@ class Instrument(ast.NodeTransformer):
                          [node.left, node.comparators[0], ast.Constant(isinstance(node.ops[0], ast.NotIn))], []), node)
         return node
 
+    def _cast_table(self, node):
+        # `("port", int)` : builtin casts referenced as values inside tuple / list displays
+        self.generic_visit(node)
+        for i, e in enumerate(node.elts):
+            if isinstance(e, ast.Name) and isinstance(e.ctx, ast.Load) and e.id in ("int", "str") and e.id not in self.shadowed:
+                node.elts[i] = ast.copy_location(ast.Name("__sx_%s__" % e.id, ast.Load()), e)
+        return node
+
+    visit_Tuple = visit_List = _cast_table
+
     def visit_Subscript(self, node):
         self.generic_visit(node)
         if isinstance(node.ctx, ast.Load) and isinstance(node.slice, ast.Slice):
